@@ -282,7 +282,7 @@ def table() -> int:
         caught = m.get("checks_reporting_violation", [])
         errs = m.get("checks_analysis_error", [])
         if m.get("kind") == "neutral-refactor":
-            neutral.append(f"| {name} | {(m.get('scope') or '')[:110]} | {len(m.get('edits', []))} | "
+            neutral.append(f"| {name} | {(m.get('scope') or '')[:110]} | {len(m.get('edits', [])) if isinstance(m.get('edits', []), (list, tuple)) else m.get('edits')} | "
                            f"{', '.join(caught) or 'none'} | {', '.join(errs) or 'none'} |")
             continue
         tgt = m.get("property", "?")
